@@ -1,8 +1,9 @@
 def prepare(rp, ce, params):
-    fields = dict(kind="lock_stress", threads="8", n="3000")
+    fields = dict(kind="lock_stress", threads="8", n="3000", timeout_s="60")
 
     def judge(out):
         if "panic" in out: return True, "real code panics under contention: " + out["panic"][:200]
+        if "timeout" in out: return True, "8 threads x 3000 closures on one lock: " + out["timeout"] + " (a clean run takes well under a second: deadlock / lost wake-up)"
         bad = out.get("final") != out.get("expected") or out.get("bad_return") == "true"
         return bad, f"8 threads x 3000 read-yield-write closures: final={out.get('final')} expected={out.get('expected')}"
     return fields, judge
